@@ -25,7 +25,7 @@ fn check<'a>(ctx: &Ctx) -> DecCheck<'a> {
         triples: false,
         bom_prefixes: true,
         random_per_enc: ctx.n(2_000, 60_000),
-        profile: Profile { max_tokens: 6, small_caps_weight: 160, queries: false, modes: &hist::ALL_MODES, sinks: &hist::ALL_SINKS, bom_prefix_weight: 200 },
+        profile: Profile { max_tokens: 6, small_caps_weight: 160, queries: false, exact_queries: false, modes: &hist::ALL_MODES, sinks: &hist::ALL_SINKS, bom_prefix_weight: 200 },
         fills: vec![0xA5],
     }
 }
